@@ -76,20 +76,20 @@ type Ctx struct {
 	OutPath             string
 	P                   Property
 
-	evaluations int
-	nontrivial  map[uint64]struct{}
-	features    map[string]int
-	samples     []interface{}
-	fails       map[string]*failRec
-	mismatches  int
+	evaluations   int
+	nontrivial    map[uint64]struct{}
+	features      map[string]int
+	samples       []interface{}
+	fails         map[string]*failRec
+	mismatches    int
 	reportSamples []interface{}
-	firstMis    *mismatchRec
-	batch       []pending
-	batchLines  int
-	modelLines  int
-	selfErrs    []string
-	start       time.Time
-	driverErr   string
+	firstMis      *mismatchRec
+	batch         []pending
+	batchLines    int
+	modelLines    int
+	selfErrs      []string
+	start         time.Time
+	driverErr     string
 }
 
 // Scale returns q in the quick tier and t in the thorough tier.
